@@ -60,6 +60,13 @@ CHECKS = {
   text="Solver verdict that Rune::from_str accepts exactly the A-Z names that fit u128 and returns their modified base-26 value (every char sequence of the listed lengths up to 29), that printing then parsing returns the same rune for all names up to 7/8 letters and for u128::MAX, that reserved names are exactly those >= the first 27-letter name with Rune::reserved total and exact, and that commitment is the minimal little-endian encoding for all u128.",
   design_ref="DESIGN.md §3 C32",
   note="Partial: print->parse for names longer than 8 letters and everything about spacers (SpacedRune) is outside the decided bound (solver limits, stated in the evidence)."),
+ "C25": dict(
+  engine="E2-mir2smt + E1a-kani-ordinals",
+  technique="differential symbolic execution: the MIR of the real Runestone::decipher and the MIR of a specification reference are executed path-wise on the same symbolic integer sequence and compared by SMT queries; LEB128 payload decoding by Kani/CBMC; native replay",
+  category="model_checking",
+  text="Solver verdict, for every sequence of up to 4 (quick) / 6 (thorough) integers of any u128 value and 1-3 outputs, that message parsing and field decoding yield exactly the runestone or the cenotaph (flaw order, kept etched name and mint, edict delta decoding and output bounds, flag/tag handling, pointer and supply rules) that a reference written from the specification yields, and never panic. Payload bytes -> integers is decided by Kani for payloads <= 6 bytes.",
+  design_ref="DESIGN.md §3 C25",
+  note="Script -> payload assembly relies on bitcoin's Instructions iterator (decided only for 3-byte scripts, thorough tier); encipher and the encipher->decipher round trip are not covered; std containers are modelled."),
 }
 
 NOT_APPLICABLE = {
